@@ -9,6 +9,13 @@ Definition dispatch (f : Z) (x : sx) : sx :=
       wire_history x
   | 1 => (* junk key rendering: [id; a; b] -> "_junk_<id>_<a>-<b>" *)
       of_str (render (KJunk (to_nat (nth_sx 0 x)) (to_nat (nth_sx 1 x)) (to_nat (nth_sx 2 x))))
+  | 2 => (* observer accumulation: [contributions; locales; files] -> [summaries; details] *)
+      let cs := to_list (fun c => Contrib nat (to_nat (nth_sx 0 c)) (to_nat (nth_sx 1 c))
+                                          (to_list to_nat (nth_sx 2 c)) (to_list to_nat (nth_sx 3 c)))
+                        (nth_sx 0 x) in
+      let o := run_files nat cs in
+      L [of_list (fun l => of_list of_nat (o_summary nat o l)) (to_list to_nat (nth_sx 1 x));
+         of_list (fun f => of_list of_nat (o_details nat o f)) (to_list to_nat (nth_sx 2 x))]
   | _ => sx_err
   end.
 
